@@ -87,6 +87,7 @@ fn c10(tier: &str, seed: u64) -> i32 {
         let text = q.render();
         let res = catch_unwind(AssertUnwindSafe(|| {
             let ts = proc_macro2::TokenStream::from_str(&text).ok()?;
+            crate::c15::HEARTBEAT.fetch_add(1, std::sync::atomic::Ordering::Relaxed);
             let parsed = syn::parse2::<JoinInputDefault>(ts).ok()?;
             Some(generate_join(&parsed, cfg(ci)).to_string())
         }));
@@ -299,6 +300,7 @@ fn ordered_subsets() -> Vec<Vec<usize>> {
 fn check_options(seq: &[(usize, usize)], first: &str) -> Result<(), String> {
     let text = format!("{} {}", seq.iter().map(|(o, v)| format!("{}({})", OPTS[*o].0, OPTS[*o].1[*v])).collect::<Vec<_>>().join(" "), first);
     let ts = proc_macro2::TokenStream::from_str(&text).map_err(|e| format!("lex: {}", e))?;
+    crate::c15::HEARTBEAT.fetch_add(1, std::sync::atomic::Ordering::Relaxed);
     let r = catch_unwind(AssertUnwindSafe(|| syn::parse2::<JoinInputDefault>(ts)));
     let parsed = match r {
         Err(_) => return Err(format!("parser panicked on `{}`", text)),
@@ -449,6 +451,7 @@ pub fn replay(v: &serde_json::Value) -> i32 {
                 return 0;
             }
             let ts = proc_macro2::TokenStream::from_str(text).unwrap();
+            crate::c15::HEARTBEAT.fetch_add(1, std::sync::atomic::Ordering::Relaxed);
             let parsed = syn::parse2::<JoinInputDefault>(ts).unwrap();
             let out = generate_join(&parsed, cfg(ci)).to_string();
             let n = text.matches("m_").count();
@@ -480,6 +483,7 @@ pub fn replay(v: &serde_json::Value) -> i32 {
                 Ok(t) => t,
                 Err(_) => return 2,
             };
+            crate::c15::HEARTBEAT.fetch_add(1, std::sync::atomic::Ordering::Relaxed);
             let r = syn::parse2::<JoinInputDefault>(ts);
             let must_reject = v["must_reject"].as_bool().unwrap_or(false);
             println!("replay: parser {}", if r.is_ok() { "accepted" } else { "rejected" });
